@@ -65,15 +65,23 @@ def ui_events(ctx, res, frames=True, world=None):
     return evs
 
 
-def number_sessions(ctx, res):
+def gated_sessions(ctx, res):
+    """Key sessions in which pages are left and walked while background loads are in flight (C09: what a page lists)."""
+    return number_sessions(ctx, res, only_gated=True)
+
+
+def number_sessions(ctx, res, only_gated=False):
     """Key sessions about typed link numbers only (C12): pinned ones plus TLC sessions that type digits; judged by T_UI."""
     out = []
     bad_all = []
     for world in ("w1", "w2"):
-        g = ctx.tlc("MC_UI", "Gen_UI.cfg", simulate="num=%d" % (150 if ctx.quick else 1500), depth=14, workers=1, consts={"World": '"%s"' % world})
         digits = set("0123456789")
-        sessions = [s for s in g.json_lines("GEN") if any(t in digits for t in s) and ("dot" in s or "enter" in s)]
-        pinned = [s for s in PINNED if any(t in digits for t in s)]
+        if only_gated:
+            sessions, pinned = [], [s for s in PINNED if s[0].startswith("gstart_")]
+        else:
+            g = ctx.tlc("MC_UI", "Gen_UI.cfg", simulate="num=%d" % (150 if ctx.quick else 1500), depth=14, workers=1, consts={"World": '"%s"' % world})
+            sessions = [s for s in g.json_lines("GEN") if any(t in digits for t in s) and ("dot" in s or "enter" in s)]
+            pinned = [s for s in PINNED if any(t in digits for t in s)]
         evs, rc, txt = run_harness(ctx, "ui", "TestVerifKeys", {"sessions": pinned + sessions, "wild": 0, "frames": False, "frame_every": 1},
                                    timeout=3000, allow_fail=True, env={"VERIF_WORLD": world}, name="numbers-" + world)
         if rc != 0:
